@@ -270,7 +270,9 @@ def run(tier, seed, rng):
                                   env=rng.choice(envs[:2]) if op == '**' else rng.choice(envs), symbolic=False))
     # oracle-only: sequence-valued operands (concatenation and repetition do not commute): constants on either side of a
     # sequence-valued sub-expression, against eval of the same text
-    seqs = [('f3[0:2]', '[7]'), ('f3[1:]', '[7, 8]'), ('f2[0:1]', "b'z'"), ('f2[1:]', "b'yz'")]
+    seqs = [('f3[0:2]', '[7]'), ('f3[1:]', '[7, 8]'), ('f2[0:1]', "b'z'"), ('f2[1:]', "b'yz'"),
+            # every shape of slice: omitted bounds, steps, negative steps (an omitted start then means "from the last element")
+            ('f3[::-1]', '[7]'), ('f3[:1:-1]', '[7, 8]'), ('f2[::-1]', "b'z'"), ('f3[2::-1]', '[7]'), ('f3[::2]', '[7]'), ('f2[:-1]', "b'z'"), ('f3[-2:]', '[7]'), ('f3[1:3:1]', '[8]'), ('f2[::-2]', "b'q'")]
     for sub, const in seqs:
         for tmpl in ('({c} + {s})', '({s} + {c})', '(({c} + {s}) + {c})', '({c} + ({s} + {s}))', '(2 * {s})', '({s} * 2)',
                      '(({c} + {s})[0])', '(({s} + {c})[0])', '(({c} + {s}).__len__())'):
